@@ -1,0 +1,19 @@
+//go:build verif
+
+package aggregator
+
+import "sort"
+
+// Accessors for the verification harness (/verif). Compiled only with -tags verif.
+
+// VerifGroupKeys returns the encoded group keys currently held by the aggregator, sorted.
+func VerifGroupKeys(ga *GroupAggregator) []string {
+	ga.mu.RLock()
+	defer ga.mu.RUnlock()
+	keys := make([]string, 0, len(ga.groups))
+	for k := range ga.groups {
+		keys = append(keys, k)
+	}
+	sort.Strings(keys)
+	return keys
+}
